@@ -17,7 +17,8 @@ RULE = ('Histories over {original, deepcopy, dill round trip} of one model (up t
         'same call on a FRESH model, whatever was done to the sibling objects before. Second part: formula-level compiled functions '
         '(Parser().ast(f)[1].compile()) copied with deepcopy/dill and called interleaved with different arguments, each result '
         'compared with a fresh compile. Third part: circular models (finish(circular=True)) original vs copies, compared with a fresh '
-        'model. Non-trivial = at least two objects are used with different inputs before the observed call; distinct by history.')
+        'model. Fourth part: array formulas whose constant-array value is folded into the cell function, entered over a larger '
+        'range (padding with #N/A) with dependents on the padded cells: original vs deepcopy vs dill vs copies of copies. Non-trivial = at least two objects are used with different inputs before the observed call; distinct by history.')
 ASSUMPTIONS = ['a copy carries no cells/books (the repo\'s __getstate__ drops them): re-finishing a copy is only required not to disturb the other objects',
                'circular models are compared with a fresh model only (their exact marking is C10)']
 WATCHDOG_S = 240
@@ -99,8 +100,61 @@ def check_circ(case):
     return R(fails, nt=len(used) >= 2, n=max(n, 1), labels=['circular'])
 
 
+ARRAY_FORMULAS = ['={1,2;3,4}', '=ISERROR({1,#DIV/0!;3,4})', '={1,2;3,4}+1', '={"a","b"}&"x"', '=-{1;2}', '=IF({1,0;0,1},"y","n")',
+                  '={1,2,3}*{1;2}', '=ISNA({#N/A,1})']
+
+
+def check_arraypad(case):
+    """An array formula whose value is folded into the cell function at compile time (constant arrays), entered over a
+    range larger / smaller than the value, with dependents that read the padded cells: original, deepcopy, dill copy
+    and copies of copies must all equal a fresh model, cell by cell, also after the other objects were used."""
+    Q = "'[b.xlsx]S'!"
+    f = ARRAY_FORMULAS[case['f'] % len(ARRAY_FORMULAS)]
+    h, w = case['shape']
+    d = {Q + 'A1:%s%d' % (G.col(w), h): f,
+         Q + 'F1': '=ISNA(%s%s%d)' % (Q, G.col(w), h), Q + 'F2': '=IFERROR(%s%s%d,"pad")' % (Q, G.col(w), h),
+         Q + 'F3': '=IF(ISERROR(%sA1),1,2)' % Q, Q + 'G1': 5.0, Q + 'F4': '=%sG1+COUNT(%sA1:%s%d)' % (Q, Q, G.col(w), h)}
+    build = lambda: sut.ExcelModel().from_dict(dict(d))
+    objs = {'A': build()}
+    fails, n = [], 0
+    for op in case['ops']:
+        if op[0] == 'copy':
+            if op[1] in objs:
+                objs[op[2]] = H.do_copy(objs[op[1]], op[3])
+            continue
+        if op[1] not in objs:
+            continue
+        inputs = {k: v for k, v in [(Q.upper().replace('B.XLSX', 'b.xlsx') + 'G1', op[2])]}
+        m = objs[op[1]]
+        nid = {str(k).upper(): k for k in m.dsp.data_nodes if isinstance(k, str)}.get((Q + 'G1').upper())
+        sol = m.calculate(inputs={nid: op[2]})
+        fm = build()
+        fid = {str(k).upper(): k for k in fm.dsp.data_nodes if isinstance(k, str)}.get((Q + 'G1').upper())
+        fsol = fm.calculate(inputs={fid: op[2]})
+        a, _ = G.flatten(sol)
+        b, _ = G.flatten(fsol)
+        n += 1
+        for k in sorted(set(a) | set(b), key=repr):
+            if not X.same(a.get(k, sut.BLANK), b.get(k, sut.BLANK), 1e-12):
+                kind = {'A': 'original', 'B': op_kind(case, 'B'), 'C': op_kind(case, 'C')}.get(op[1], '?')
+                fails.append(('arraypad|differs-from-fresh|%s' % kind, '%s over A1:%s%d: %s is %r on %s, %r on a fresh model' % (
+                    f, G.col(w), h, k, a.get(k), op[1], b.get(k))))
+                break
+    used = {op[1] for op in case['ops'] if op[0] == 'calc'}
+    return R(fails, nt=len(used) >= 2, n=max(n, 1), labels=['arraypad', 'arraypad:%dx%d' % (h, w)])
+
+
+def op_kind(case, name):
+    for op in case['ops']:
+        if op[0] == 'copy' and op[2] == name:
+            return op[3]
+    return 'copy'
+
+
 def check_case(case):
     k = case['k']
+    if k == 'arraypad':
+        return check_arraypad(case)
     if k == 'history':
         return check_history(case)
     if k == 'fcopy':
@@ -129,9 +183,18 @@ def _circ(tier):
     return st.builds(lambda i, ops: {'k': 'circ', 'i': i, 'ops': [['copy', 'A', 'B', 'deepcopy']] + ops}, st.integers(0, 2), st.lists(st.one_of(calc, calc, cp), min_size=2, max_size=7))
 
 
-STRATEGIES = {'histories': _histories, 'fcopies': _fcopies, 'circ': _circ}
+def _arraypad(tier):
+    calc = st.builds(lambda o, v: ['calc', o, v], st.sampled_from(['A', 'B', 'C']), st.sampled_from([0.0, 1.0, 4.0, -2.0]))
+    cp = st.builds(lambda s_, d_, h_: ['copy', s_, d_, h_], st.sampled_from(['A', 'B']), st.sampled_from(['B', 'C']), st.sampled_from(['deepcopy', 'dill', 'deepcopy']))
+    return st.builds(lambda f, shape, how, ops: {'k': 'arraypad', 'f': f, 'shape': list(shape), 'ops': [['copy', 'A', 'B', how]] + ops},
+                     st.integers(0, len(ARRAY_FORMULAS) - 1), st.sampled_from([(3, 3), (2, 3), (3, 2), (1, 1), (2, 2), (4, 1), (1, 4)]),
+                     st.sampled_from(['deepcopy', 'dill']), st.lists(st.one_of(calc, calc, cp), min_size=2, max_size=6))
+
+
+STRATEGIES = {'histories': _histories, 'fcopies': _fcopies, 'circ': _circ, 'arraypad': _arraypad}
 
 
 def parts(tier, seed):
     q = tier == 'quick'
-    return [('hyp', 'histories', 480 if q else 6000, 8), ('hyp', 'fcopies', 160 if q else 4000, 10), ('hyp', 'circ', 64 if q else 1500, 4)]
+    return [('hyp', 'histories', 480 if q else 6000, 8), ('hyp', 'fcopies', 160 if q else 4000, 10), ('hyp', 'circ', 64 if q else 1500, 4),
+            ('hyp', 'arraypad', 160 if q else 3000, 10)]
